@@ -538,28 +538,23 @@ mod c07 {
 // (columns 1..=rank, one stream, limb by limb), copies the body, and ignores the receiver's prior contents.
 // Bounded: N = 2, rank = 2, size = 2; the ChaCha8 stream is the symbolic tape (every draw independent).
 // ------------------------------------------------------------------------------------------------
-#[kani::proof]
-#[kani::unwind(34)]
-#[kani::stub(alloc::fmt::format, fmt_stub)]
-#[kani::stub(<rand_chacha::ChaCha8Rng as rand_core::TryRng>::try_next_u64, tape_next_u64)]
-#[kani::stub(poulpy_hal::source::Source::new, source_new_stub)]
-fn c19_glwe_decompress_mask_order__n2_rank2_size2() {
+fn c19_decompress_case<const RANK: usize, const SIZE: usize>() {
     use poulpy_core::layouts::{GLWECompressed, GLWEDecompress, GLWE};
     use poulpy_hal::layouts::{FillUniform, Module, ZnxView, ZnxViewMut};
     use poulpy_hal::source::Source;
     const B: usize = 8;
     let module: Module<crate::FFT64Ref> = Module::new_marker(2);
-    let mut comp: GLWECompressed<Vec<u8>> = GLWECompressed::alloc(2u32.into(), (B as u32).into(), (2 * B as u32).into(), 2u32.into());
+    let mut comp: GLWECompressed<Vec<u8>> = GLWECompressed::alloc(2u32.into(), (B as u32).into(), ((SIZE * B) as u32).into(), (RANK as u32).into());
     // body <- 4 symbolic draws (FillUniform for GLWECompressed, 63-bit values), so that the harness knows its contents
     let mut s0 = Source::new([1u8; 32]);
     comp.fill_uniform(63, &mut s0);
-    unsafe { assert!(DRAWS == 4, "C19:body filled from 4 draws"); }
+    unsafe { assert!(DRAWS == 2 * SIZE, "C19:body filled from 4 draws"); }
     let seed: [u8; 32] = kani::any();
     {
         use poulpy_core::layouts::GLWECompressedSeedMut;
         *comp.seed_mut() = seed;
     }
-    let mut res: GLWE<Vec<u8>> = GLWE::alloc(2u32.into(), (B as u32).into(), (2 * B as u32).into(), 2u32.into());
+    let mut res: GLWE<Vec<u8>> = GLWE::alloc(2u32.into(), (B as u32).into(), ((SIZE * B) as u32).into(), (RANK as u32).into());
     for x in res.data_mut().raw_mut().iter_mut() {
         *x = kani::any(); // stale receiver contents must not matter
     }
@@ -567,21 +562,21 @@ fn c19_glwe_decompress_mask_order__n2_rank2_size2() {
     let half: i64 = 1i64 << (B - 1);
     let mask: u64 = (1u64 << B) - 1;
     unsafe {
-        assert!(DRAWS == 4 + 8, "C19:mask regeneration consumes exactly rank*size*N draws");
+        assert!(DRAWS == 2 * SIZE + RANK * SIZE * 2, "C19:mask regeneration consumes exactly rank*size*N draws");
         let mut q = 0;
         while q < 32 {
             assert!(LAST_SEED[q] == seed[q], "C19:the mask stream is seeded by the seed stored in the compressed object");
             q += 1;
         }
         let mut j = 0;
-        while j < 2 {
+        while j < SIZE {
             let mut k = 0;
             while k < 2 {
                 let body = ((TAPE[2 * j + k] << 1) as i64) >> 1;
                 assert!(res.data().at(0, j)[k] == body, "C19:column 0 is the stored body");
                 let mut i = 1;
-                while i <= 2 {
-                    let t = 4 + ((i - 1) * 2 + j) * 2 + k; // column-major over mask columns, then limb, then coefficient
+                while i <= RANK {
+                    let t = 2 * SIZE + ((i - 1) * SIZE + j) * 2 + k; // column-major over mask columns, then limb, then coefficient
                     assert!(res.data().at(i, j)[k] == ((TAPE[t] & mask) as i64) - half, "C19:mask column i, limb j, coeff k == draw (i-1)*size*N + j*N + k");
                     i += 1;
                 }
@@ -590,6 +585,24 @@ fn c19_glwe_decompress_mask_order__n2_rank2_size2() {
             j += 1;
         }
     }
+}
+
+#[kani::proof]
+#[kani::unwind(34)]
+#[kani::stub(alloc::fmt::format, fmt_stub)]
+#[kani::stub(<rand_chacha::ChaCha8Rng as rand_core::TryRng>::try_next_u64, tape_next_u64)]
+#[kani::stub(poulpy_hal::source::Source::new, source_new_stub)]
+fn c19_glwe_decompress_mask_order__n2_rank2_size2() {
+    c19_decompress_case::<2, 2>();
+}
+
+#[kani::proof]
+#[kani::unwind(34)]
+#[kani::stub(alloc::fmt::format, fmt_stub)]
+#[kani::stub(<rand_chacha::ChaCha8Rng as rand_core::TryRng>::try_next_u64, tape_next_u64)]
+#[kani::stub(poulpy_hal::source::Source::new, source_new_stub)]
+fn c19_glwe_decompress_mask_order__n2_rank3_size1() {
+    c19_decompress_case::<3, 1>();
 }
 
 // ------------------------------------------------------------------------------------------------
@@ -1203,65 +1216,49 @@ mod c12_window {
         (s1, s2)
     }
 
-    fn coeff_ops<const N: usize>() {
+    fn op_case<const N: usize>(op: u8) {
         let module: Module<BE> = Module::new_marker(N as u64);
         let a = input::<N>();
-        // normalize_assign
-        {
-            let (mut s1, mut s2) = windows(module.vec_znx_normalize_tmp_bytes());
-            let (mut x, mut y) = (a.clone(), a.clone());
-            module.vec_znx_normalize_assign(8, &mut x, 0, s1.borrow());
-            module.vec_znx_normalize_assign(8, &mut y, 0, s2.borrow());
-            assert!(same(&x, &y), "C12:normalize_assign independent of scratch contents");
+        let bytes = match op {
+            0 => module.vec_znx_normalize_tmp_bytes(),
+            1 => module.vec_znx_rotate_assign_tmp_bytes(),
+            2 => module.vec_znx_automorphism_assign_tmp_bytes(),
+            3 => module.vec_znx_mul_xp_minus_one_assign_tmp_bytes(),
+            4 => module.vec_znx_lsh_tmp_bytes(),
+            _ => module.vec_znx_rsh_tmp_bytes(),
+        };
+        let (mut s1, mut s2) = windows(bytes);
+        let (mut x, mut y) = (a.clone(), a.clone());
+        match op {
+            0 => { module.vec_znx_normalize_assign(8, &mut x, 0, s1.borrow()); module.vec_znx_normalize_assign(8, &mut y, 0, s2.borrow()); }
+            1 => { module.vec_znx_rotate_assign(3, &mut x, 0, s1.borrow()); module.vec_znx_rotate_assign(3, &mut y, 0, s2.borrow()); }
+            2 => { module.vec_znx_automorphism_assign(-1, &mut x, 0, s1.borrow()); module.vec_znx_automorphism_assign(-1, &mut y, 0, s2.borrow()); }
+            3 => { module.vec_znx_mul_xp_minus_one_assign(1, &mut x, 0, s1.borrow()); module.vec_znx_mul_xp_minus_one_assign(1, &mut y, 0, s2.borrow()); }
+            4 => { module.vec_znx_lsh_assign(8, 3, &mut x, 0, s1.borrow()); module.vec_znx_lsh_assign(8, 3, &mut y, 0, s2.borrow()); }
+            _ => { module.vec_znx_rsh_assign(8, 11, &mut x, 0, s1.borrow()); module.vec_znx_rsh_assign(8, 11, &mut y, 0, s2.borrow()); }
         }
-        // rotate_assign / automorphism_assign / mul_xp_minus_one_assign
-        {
-            let (mut s1, mut s2) = windows(module.vec_znx_rotate_assign_tmp_bytes());
-            let (mut x, mut y) = (a.clone(), a.clone());
-            module.vec_znx_rotate_assign(3, &mut x, 0, s1.borrow());
-            module.vec_znx_rotate_assign(3, &mut y, 0, s2.borrow());
-            assert!(same(&x, &y), "C12:rotate_assign independent of scratch contents");
-        }
-        {
-            let (mut s1, mut s2) = windows(module.vec_znx_automorphism_assign_tmp_bytes());
-            let (mut x, mut y) = (a.clone(), a.clone());
-            module.vec_znx_automorphism_assign(-1, &mut x, 0, s1.borrow());
-            module.vec_znx_automorphism_assign(-1, &mut y, 0, s2.borrow());
-            assert!(same(&x, &y), "C12:automorphism_assign independent of scratch contents");
-        }
-        {
-            let (mut s1, mut s2) = windows(module.vec_znx_mul_xp_minus_one_assign_tmp_bytes());
-            let (mut x, mut y) = (a.clone(), a.clone());
-            module.vec_znx_mul_xp_minus_one_assign(1, &mut x, 0, s1.borrow());
-            module.vec_znx_mul_xp_minus_one_assign(1, &mut y, 0, s2.borrow());
-            assert!(same(&x, &y), "C12:mul_xp_minus_one_assign independent of scratch contents");
-        }
-        // shifts in place
-        {
-            let (mut s1, mut s2) = windows(module.vec_znx_lsh_tmp_bytes());
-            let (mut x, mut y) = (a.clone(), a.clone());
-            module.vec_znx_lsh_assign(8, 3, &mut x, 0, s1.borrow());
-            module.vec_znx_lsh_assign(8, 3, &mut y, 0, s2.borrow());
-            assert!(same(&x, &y), "C12:lsh_assign independent of scratch contents");
-        }
-        {
-            let (mut s1, mut s2) = windows(module.vec_znx_rsh_tmp_bytes());
-            let (mut x, mut y) = (a.clone(), a.clone());
-            module.vec_znx_rsh_assign(8, 11, &mut x, 0, s1.borrow());
-            module.vec_znx_rsh_assign(8, 11, &mut y, 0, s2.borrow());
-            assert!(same(&x, &y), "C12:rsh_assign independent of scratch contents");
-        }
+        assert!(same(&x, &y), "C12:exact *_tmp_bytes window suffices and the result is independent of scratch contents");
     }
-    #[kani::proof]
-    #[kani::unwind(20)]
-    #[kani::stub(alloc::fmt::format, fmt_stub)]
-    fn c12_exact_window_coeff_ops__n2() { coeff_ops::<2>(); }
-    #[kani::proof]
-    #[kani::unwind(20)]
-    #[kani::stub(alloc::fmt::format, fmt_stub)]
-    fn c12_exact_window_coeff_ops__n4() { coeff_ops::<4>(); }
-    #[kani::proof]
-    #[kani::unwind(20)]
-    #[kani::stub(alloc::fmt::format, fmt_stub)]
-    fn c12_exact_window_coeff_ops__n8() { coeff_ops::<8>(); }
+    macro_rules! window_harness {
+        ($name:ident, $n:expr, $op:expr) => {
+            #[kani::proof]
+            #[kani::unwind(20)]
+            #[kani::stub(alloc::fmt::format, fmt_stub)]
+            fn $name() {
+                op_case::<$n>($op);
+            }
+        };
+    }
+    window_harness!(c12_window_normalize_assign__n4, 4, 0);
+    window_harness!(c12_window_rotate_assign__n4, 4, 1);
+    window_harness!(c12_window_automorphism_assign__n4, 4, 2);
+    window_harness!(c12_window_mul_xp_minus_one_assign__n4, 4, 3);
+    window_harness!(c12_window_lsh_assign__n4, 4, 4);
+    window_harness!(c12_window_rsh_assign__n4, 4, 5);
+    window_harness!(c12_window_normalize_assign__n2, 2, 0);
+    window_harness!(c12_window_rotate_assign__n2, 2, 1);
+    window_harness!(c12_window_rsh_assign__n2, 2, 5);
+    window_harness!(c12_window_normalize_assign__n8, 8, 0);
+    window_harness!(c12_window_rsh_assign__n8, 8, 5);
+
 }
